@@ -49,8 +49,8 @@ func c17Kernel(k int, g, other *Genome, opts *neat.Options, pop *Population) *Ge
 	return g
 }
 
-func vc17(kernels int) {
-	k := vChoice("kernel", kernels)
+func vc17(kernels []int, symFlags bool) {
+	k := kernels[vChoice("kernel", len(kernels))]
 	cfg := cfgSensors
 	if k >= 4 && k <= 6 {
 		cfg = pcfg(false, lInOut, lInHid, lHidOut)
@@ -58,6 +58,7 @@ func vc17(kernels int) {
 	if k == 3 {
 		cfg = cfgTiny
 	}
+	cfg.symEnable, cfg.symRecur = symFlags, symFlags && cfg.symRecur
 	g1 := tGenome("g", 1, cfg)
 	o1 := tGenome("o", 2, pcfg(false, lInOut, lBiasOut))
 	assumeConsistent(g1, o1)
@@ -77,8 +78,8 @@ func vc17(kernels int) {
 	vReach("end")
 }
 
-func VC17_Kernels_Quick()    { vc17(8) }
-func VC17_Kernels_Thorough() { vc17(9) }
+func VC17_Kernels_Quick()    { vc17([]int{0, 1, 2, 4, 5, 6, 7}, false) }
+func VC17_Kernels_Thorough() { vc17([]int{0, 1, 2, 3, 4, 5, 6, 7, 8}, true) }
 
 // speciation and spawning: same organisms, same stream => same membership and same genomes
 func VC17_Spawn() {
